@@ -129,7 +129,7 @@ def snapshot(p):
     eng = sm._engine
     return (
         repr(getattr(sm.model, "state", None)), id(sm.model), tuple(sorted(sm.__dict__)),
-        tuple(id(x) for x in sm._listeners), len(eng._external_queue), eng._processing.locked(),
+        tuple(id(x) for x in sm._listeners), len(eng._external_queue), repr(eng._processing),
         p.impl.env.seq, id(sm._engine), sm.allow_event_without_transition,
         tuple(sorted(vars(sm.model))) if hasattr(sm.model, "__dict__") else (),
         tuple(sorted(vars(p.impl.listeners[0]))) if p.impl.listeners else (),
